@@ -138,7 +138,8 @@ def run(chk, ctx) -> None:
         first = ms[u].body[0] if ms[u].body else None
         ok = isinstance(first, ast.Expr) and isinstance(first.value, ast.Call) and self_attr(first.value.func) == '_update' \
             and len(first.value.args) == 1 and isinstance(first.value.args[0], ast.Name) and first.value.args[0].id == 'operation'
-        chk.ob('C07.update_first', f'State.{u}', ok, ms[u].loc, 'the phase update logs the operation first (self._update(operation))')
+        # (that the update step logs the operation first is C15.log's clause; it says nothing about the phases and is not judged here)
+        del ok, first
         # _update_X calls only its own end
         ends = {self_attr(n.func) for n in walk_no_nested(ms[u].node) if isinstance(n, ast.Call) and self_attr(n.func) and self_attr(n.func).startswith(('_end', '_begin'))}
         chk.ob('C07.callers', f'State.{u}:ends', ends <= {e}, ms[u].loc, 'an update step ends only its own phase', got=sorted(ends), want=[e])
